@@ -639,3 +639,64 @@ def parallel_cases(rng, focus, thorough, n, workers=(2, 3)):
              % ("/".join(str(w) for w in workers), n, 4 if thorough else 3,
                 {"walk": "Pyramid.walk", "visit": "Pyramid.visit_leaves"}.get(focus, "Pyramid.visit_leaves / Pyramid.walk (alternating)")))
     return cases, bound
+
+
+# ---------------------------------------------------------------------------------------------
+# glue used by the drivers
+
+def derived_rng(seed, tag):
+    """The history scenarios draw from their own generator (derived from the run's seed) so that adding them
+    leaves the seeded case streams of the older scenarios untouched."""
+    return random.Random("history/%s/%s" % (tag, seed))
+
+
+def findings(case, result, prefixes):
+    """Violations of the scenarios whose name starts with one of ``prefixes`` -> [(obligation, witness, message)]"""
+    pre = tuple(prefixes)
+    return [("rt/%s/%s" % (s, cl), witness_of(case, **ex), msg) for s, cl, ex, msg in evaluate(case, result) if s.startswith(pre)]
+
+
+def nontrivial(case):
+    """A case exercises the rule when the final configuration has something to visit and the object had a history."""
+    kind, _d, acc, _a, _cs = Q.shape_from_witness(case)
+    _c, (fd, fa) = configs(case)
+    return len(Q.Expect(kind, fd, acc, fa).leaves) > 0 and len(case["program"]) >= 2
+
+
+def case_key(case):
+    import json
+    return "hist:" + json.dumps({k: case.get(k) for k in ("kind", "depth", "accept", "apex", "coordsys", "program")}, sort_keys=True)
+
+
+def replay(obligation, witness, prefixes, watchdog=90):
+    """Re-run one recorded history.  Programs with worker processes run in a fresh interpreter under the usual
+    two watchdogs and get three tries; an expired watchdog decides nothing."""
+    import shutil
+    import tempfile
+    case = case_from_witness(witness)
+    par = max_parallel(case) > 1
+    tries = 3 if par else 1
+    undecided = 0
+    work = tempfile.mkdtemp(prefix="hist_replay_") if par else None
+    try:
+        for attempt in range(tries):
+            case["id"] = attempt
+            if par:
+                from rt import c01_batch as B
+                res = B.dispatch("rt.c13_history", "run_history", [dict(case)], os.path.join(work, "r%d" % attempt), watchdog, batch_size=1, max_workers=1)
+                o = res.get(attempt, {"status": "skipped"})
+                if o["status"] != "done":
+                    undecided += 1
+                    continue
+                result = o["result"]
+            else:
+                result = run_history(case)
+            hits = [m for ob, _w, m in findings(case, result, prefixes) if ob == obligation]
+            if hits:
+                return False, hits[0]
+        if undecided == tries:
+            return True, "undecided: the program did not finish inside the %d s watchdog in %d tries" % (watchdog, tries)
+        return True, "obligation %s held in %d run(s) of this program" % (obligation, tries - undecided)
+    finally:
+        if work:
+            shutil.rmtree(work, ignore_errors=True)
